@@ -415,7 +415,9 @@ def analyse(trace_text, rundir, targets, inj):
         if injected_here:
             fired = site
         ev.pop("prelude", None)
-        if ev["call"] != "other":
+        if ev["call"] != "other" or injected_here:
+            # calls that do not touch the target are left out of the trace, except the injected failure of one
+            # (e.g. reading stdin): it is the fault of the run and may change what the program does next
             events.append(dict(ev, ev="call"))
     if inj is not None and inj["errno"] is None and inj["syscall"] == "exit_group" and killed:
         # SIGKILL delivered at the entry of exit_group: the log shows `exit_group(n) = ?` as for a normal exit
@@ -534,30 +536,32 @@ def probe_strace():
 # expectations from the specification
 
 def spec_table(chk=None):
-    res = common.run_tlc("FmtWrite", "FmtWrite.cfg", timeout=300)
+    """One TLC run: Atomic & co. for the intended protocol (every terminal state = one allowed outcome of one
+    schedule) and, as a sanity check that the invariant can fail, witnesses of its violation for the protocol
+    without mode restoration (what main.go does) and for rewriting in place."""
+    res = common.run_tlc("FmtWrite", "FmtWrite.cfg", timeout=600)
     if chk is not None:
-        chk.add_tlc(res, "FmtWrite (intended protocol, all single faults and kill points)")
-    if not res.cases:
-        raise HarnessError("TLC emitted no schedules for FmtWrite")
-    table = {}
+        chk.add_tlc(res, "FmtWrite (intended protocol: all single faults and kill points; deviating protocols refuted)")
+    table, refuted = {}, {}
     for c in res.cases:
+        if "refuted" in c:
+            refuted.setdefault(c["refuted"], c)
+            continue
         f = c["fault"]
         k = (c["op"], tuple(c["files"]), c["omode"], f["type"], f["call"], f["errno"])
         e = c["expect"]
         table.setdefault(k, set()).add((e["content"], e["mode"], e["exit"]))
-    return table
-
-
-def sanity_variants(chk):
-    """The invariant must be able to fail: TLC refutes Atomic for the protocol without mode restoration (what
-    main.go does) and for rewriting in place."""
+    if not table:
+        raise HarnessError("TLC emitted no schedules for FmtWrite")
     for v in ("asimpl", "inplace"):
-        res = common.run_tlc("FmtWrite", "FmtWriteBad.cfg", defines={"VARIANT": v}, allow_violation=True,
-                             timeout=300, name="FmtWriteBad-" + v)
-        if not res.violation or "Atomic" not in res.violation:
-            raise HarnessError("invariant Atomic is not sensitive: variant %s passes" % v)
-        chk.extra.setdefault("model_level_refutations", []).append(
-            "Variant=%s: TLC refutes Atomic (%d states until the counterexample)" % (v, res.distinct))
+        if v not in refuted:
+            raise HarnessError("invariant Atomic is not sensitive: TLC found no violating state for variant " + v)
+    if chk is not None:
+        chk.extra["model_level_refutations"] = [
+            "Variant=%s: Atomic violated, e.g. target [content %s, mode %s] (was mode %s) at exit=%s, fault=%s:%s"
+            % (v, w["content"], w["mode"], w["omode"], w["exit"], w["fault"]["type"], w["fault"]["call"])
+            for v, w in sorted(refuted.items())]
+    return table
 
 
 def sched_text(rs, fired):
@@ -779,8 +783,6 @@ def run(chk):
     os.makedirs(BASE)
     table = spec_table(chk)
     lap("build+TLC FmtWrite")
-    sanity_variants(chk)
-    lap("TLC refutations")
 
     inputs = write_inputs()
     oracles = {}
@@ -909,7 +911,7 @@ def check_family(chk, inputs, orc, table):
         "txtarbad": ("a.txtar", TXTARBAD), "fmttrail": ("a.evy", fm + b"\n"),
     }
     labs = list(fam)
-    modes = MODES if chk.tier == "thorough" else [common.pick(MODES, 1)[0], "0444"]
+    modes = MODES if chk.tier == "thorough" else [common.pick(MODES, 1)[0]]
     runs = []
     for lab in labs:
         name, data = fam[lab]
@@ -919,7 +921,8 @@ def check_family(chk, inputs, orc, table):
         if not name.endswith(".txtar"):
             orc("<stdin>", data)
             runs.append(mk_run("c-%s-stdin" % lab, lab, "checkstdin", [], ["-c"], stdin=data))
-            runs.append(mk_run("c-%s-stdin2" % lab, lab, "checkstdin", [], ["--check"], stdin=data))
+            if chk.tier == "thorough":
+                runs.append(mk_run("c-%s-stdin2" % lab, lab, "checkstdin", [], ["--check"], stdin=data))
     pairs = [(a, b) for a in ("fmtd", "unfmt", "bad", "trail") for b in ("fmtd", "unfmt", "bad", "txtarfmtd")]
     if chk.tier == "quick":
         pairs = common.pick([p for p in pairs if p != ("fmtd", "fmtd")], 5) + [("fmtd", "fmtd")]
@@ -937,7 +940,7 @@ def check_family(chk, inputs, orc, table):
         cl = next(o for o in outs if o["run"]["id"] == "c-%s-%s" % (lab, modes[0]))
         frs += fault_runs("cf-%s-%s" % (lab, modes[0]), lab, "check", [(name, data, modes[0])], ["-c", name], cl,
                           tier=chk.tier)
-    for lab in (["unfmt"] if chk.tier == "quick" else ["fmtd", "unfmt", "bad"]):
+    for lab in (common.pick(["fmtd", "unfmt"], 1, common.seed() + 1) if chk.tier == "quick" else ["fmtd", "unfmt", "bad"]):
         cl = next(o for o in outs if o["run"]["id"] == "c-%s-stdin" % lab)
         frs += fault_runs("cf-%s-stdin" % lab, lab, "checkstdin", [], ["-c"], cl, stdin=fam[lab][1], tier=chk.tier)
     fo, _, dropped = run_with_retries(frs, attempts=2)
